@@ -13,7 +13,7 @@ ASSUMPTIONS = ["the NUL-separated list output is the reference table", "JSON row
 def mech(tier, seed):
     # the writer protocol of the four result paths (H, rows with one separator between neighbours, F), model-checked
     return [dict(module="Pipeline", cfg="Pipeline_q", workers=4, actions=["Header", "Offer", "Plan", "WriteRow", "Footer"]),
-            # Mech => Prop for the csv and html writers: what WriterMech writes decodes (Formats.tla) to the same table, for every small table
+            # Mech => Prop for the csv, html and json writers: what WriterMech writes decodes (Formats.tla) to the same table, for every small table
             dict(module="MC_WriterMech", cfg="MC_WriterMech", workers=8, actions=[], coverage=False)]
 
 
@@ -24,7 +24,7 @@ def _pipeline_conformance(ctx, tier, seed):
 
 def conformance(tier, seed):
     # white-box: the writer / accept events of real runs of these scenarios are replayed through Pipeline.tla
-    # spec -> implementation: the characters written in csv / html are exactly what the writer model (WriterMech) writes for the table
+    # spec -> implementation: the characters written in csv / html / json are exactly what the writer model (WriterMech) writes for the table
     return [dict(name="Pipeline", run=_pipeline_conformance),
             dict(name="WriterMech", module="MC_C09", cfg=None, judge="Judge_WriterMech", workers=4, limit=1500 if tier == "quick" else None)]
 
